@@ -44,3 +44,33 @@ package heco
 //@   trusted   -- storage lookup in the canonical index; read-only
 //@   modifies nothing
 //@   ensures r1 == nil ==> r0 != nil
+
+// ---- C29: a header is stored only with a stored parent and a valid, in-window, correctly weighted seal -------
+//@ func (*Handler).SyncBlockHeader
+//@   property C29
+//@   mode abstract
+//@   requires native != nil
+//@   modifies *
+//@   ghost var parentOK bool = false
+//@   ghost var sigOK bool = false
+//@   ghost var gsigner ecommon.Address
+//@   ghost var notRecent bool = false
+//@   ghost var dOK bool = false
+//@   ghost var widx int = 0
+//@   set before "err := json.Unmarshal(v, &header)" : parentOK := false
+//@   set before "err := json.Unmarshal(v, &header)" : sigOK := false
+//@   set before "err := json.Unmarshal(v, &header)" : notRecent := false
+//@   set before "err := json.Unmarshal(v, &header)" : dOK := false
+//@   set after "if !parentExist" : parentOK := true
+//@   set after "signer, err := verifySignature(native, &header, ctx)" : sigOK := err == nil
+//@   set after "signer, err := verifySignature(native, &header, ctx)" : gsigner := signer
+//@   set after "if lastSeenHeight > 0" : notRecent := true
+//@   set after "if header.Difficulty.Cmp(diffInTurn) != 0" : dOK := true
+//@   set after "if header.Difficulty.Cmp(diffNoTurn) != 0" : dOK := true
+//@   set before "valid = true" : widx := idx
+//@   loop 2 invariant valid ==> 0 <= widx && widx < len(inTurnHV.Validators) && inTurnHV.Validators[widx] == signer && dOK
+//@   -- the parent lookup uses this header's parent hash; the seal is checked on this header
+//@   callsite[c29-parent-lookup] isHeaderExist#2 requires arg1 == header.ParentHash
+//@   -- a header reaches storage only if its parent is stored, its seal verified, the sealer is a member of the
+//@   -- validator set in effect, has not sealed within the recent-signer window, and the difficulty matched its turn
+//@   callsite[c29-stored-only-valid] addHeader#1 requires parentOK && sigOK && gsigner == signer && notRecent && valid && dOK && inTurnHV.Validators[widx] == signer
